@@ -8,6 +8,7 @@ import (
 
 	"github.com/PelicanPlatform/classad/classad"
 
+	"github.com/bbockelm/cedar/security"
 	"github.com/bbockelm/cedar/stream"
 )
 
@@ -53,3 +54,14 @@ func (v *VerifBrokerReg) ServeReadOne(ctx context.Context) (*classad.ClassAd, er
 }
 
 func (v *VerifBrokerReg) CloseConn() { v.r.closeConn() }
+
+// VerifDialBrokerAuthCmd: the requester/listener path that reaches a broker - by
+// TCP, shared port or a caller-supplied carrier - and runs the client handshake
+// for one CEDAR command on it.
+func VerifDialBrokerAuthCmd(ctx context.Context, brokerAddr string, sec *security.SecurityConfig, command int, dialer BrokerDialer) (*security.SecurityNegotiation, error) {
+	conn, _, neg, err := dialBrokerAuthCmd(ctx, brokerAddr, sec, command, dialer)
+	if conn != nil {
+		_ = conn.Close()
+	}
+	return neg, err
+}
